@@ -9,8 +9,12 @@ import (
 	"strings"
 	"testing/fstest"
 
+	"github.com/foxboron/go-uefi/efi"
+	"github.com/foxboron/go-uefi/efi/attributes"
 	"github.com/foxboron/go-uefi/efi/device"
+	efs "github.com/foxboron/go-uefi/efi/fs"
 	"github.com/foxboron/go-uefi/efivarfs/testfs"
+	"github.com/spf13/afero"
 )
 
 const globalGUIDText = "8be4df61-93ca-11d2-aa0d-00e098032b8c"
@@ -61,6 +65,37 @@ func c18EvalOrder(c *Ctx, cs Case) {
 			c.Fail(Failure{Kind: "property", Matcher: "c18.lowercase_boot_names", What: "BootOrder does not decode to the firmware names of the Boot#### variables", Case: cs, Go: strings.Join(names, ","), Spec: strings.Join(want, ",")})
 		} else if len(resolveErr) > 0 {
 			c.Fail(Failure{Kind: "property", What: "a returned boot name does not resolve through GetBootEntry although the variable exists", Case: cs, Go: strings.Join(resolveErr, "; ")})
+		}
+	}
+	// the legacy package-level accessors (efi.GetBootOrder / efi.GetBootEntry over the efi/fs filesystem)
+	{
+		mem := afero.NewMemMapFs()
+		dir := "/sys/firmware/efi/efivars"
+		for path, f := range files {
+			afero.WriteFile(mem, path, f.Data, 0o644)
+		}
+		var lnames, lerrs []string
+		oldDir, oldFs := attributes.Efivars, efs.Fs
+		attributes.Efivars = dir
+		efs.SetFS(mem)
+		lpan, lmsg := safely(func() {
+			lnames = efi.GetBootOrder()
+			for _, nm := range lnames {
+				if _, err := efi.GetBootEntry(nm); err != nil {
+					lerrs = append(lerrs, nm+": "+err.Error())
+				}
+			}
+		})
+		attributes.Efivars = oldDir
+		efs.SetFS(oldFs)
+		if lpan {
+			c.Fail(Failure{Kind: "property", Matcher: "c18.legacy_boot_order", What: "efi.GetBootOrder / efi.GetBootEntry panicked: " + lmsg, Case: cs})
+		} else if len(order)%2 == 0 {
+			if strings.Join(lnames, ",") != strings.Join(want, ",") {
+				c.Fail(Failure{Kind: "property", Matcher: "c18.legacy_boot_order", What: "efi.GetBootOrder (legacy API) does not decode BootOrder to the firmware names of the Boot#### variables", Case: cs, Go: fmt.Sprintf("%q", lnames), Spec: fmt.Sprintf("%q", want)})
+			} else if len(lerrs) > 0 {
+				c.Fail(Failure{Kind: "property", Matcher: "c18.legacy_boot_order", What: "a name returned by efi.GetBootOrder does not resolve through efi.GetBootEntry although the variable exists", Case: cs, Go: strings.Join(lerrs, "; ")})
+			}
 		}
 	}
 	c.Trace()
